@@ -503,8 +503,10 @@ pub fn parse_choice_text(input: &str) -> Result<ParsedChoiceText, CompilerError>
         has_choice_only_content: false,
         inline_target,
         inline_body_nodes: Vec::new(),
+        // a tag written in the start text belongs to the choice AND to the line printed when
+        // it is chosen (as in the bracketed form, where start and end tags are both kept)
+        selected_tags: start_tags.clone(),
         start_tags,
         choice_only_tags: Vec::new(),
-        selected_tags: Vec::new(),
     })
 }
